@@ -2,11 +2,89 @@ package main
 
 import (
 	"bufio"
+	"io"
 	"os"
+
+	"go.pennock.tech/tabular"
+	"go.pennock.tech/tabular/auto"
+	"go.pennock.tech/tabular/csv"
+	"go.pennock.tech/tabular/html"
+	tjson "go.pennock.tech/tabular/json"
+	"go.pennock.tech/tabular/markdown"
+	"go.pennock.tech/tabular/texttable"
+	"go.pennock.tech/tabular/texttable/decoration"
 )
+
+// renderAll (C09): every renderer x every registered decoration (plus an unknown
+// name and a custom decoration) x every entry point (wrapper method Render /
+// RenderTo, package function, auto.Render for every listed style), each under
+// recover. One entry per call: [format, decoration, entry, status, textEmpty].
+func (w *world) renderAll(tid int) []interface{} {
+	t := w.table(tid)
+	var out []interface{}
+	call := func(fmtName, dec, entry string, f func() (string, error)) {
+		status, text := "ok", ""
+		func() {
+			defer func() {
+				if r := recover(); r != nil {
+					status = "panic"
+				}
+			}()
+			s, err := f()
+			text = s
+			if err != nil {
+				status = "error"
+			}
+		}()
+		out = append(out, []interface{}{fmtName, dec, entry, status, b2i(text == "")})
+	}
+	viaTo := func(f func(io.Writer) error) func() (string, error) {
+		return func() (string, error) {
+			sk := &sink{}
+			err := f(sk)
+			if err != nil {
+				return "", err // what RenderTo wrote before failing is C15's business
+			}
+			return string(sk.b), nil
+		}
+	}
+	names := append(decoration.RegisteredDecorationNames(), "no-such-decoration")
+	for _, n := range names {
+		tt := texttable.Wrap(t)
+		tt.SetDecorationNamed(n)
+		call("text", n, "Render", tt.Render)
+		call("text", n, "RenderTo", viaTo(tt.RenderTo))
+	}
+	custom := texttable.Wrap(t)
+	custom.SetDecoration(customDecoration(M{"Horizontal": "~", "VBorder": "!"}))
+	call("text", "custom", "Render", custom.Render)
+	call("text", "default", "pkg.Render", func() (string, error) { return texttable.Render(t) })
+	call("text", "default", "pkg.RenderTo", viaTo(func(wr io.Writer) error { return texttable.RenderTo(t, wr) }))
+	call("csv", "", "Render", csv.Wrap(t).Render)
+	call("csv", "", "RenderTo", viaTo(csv.Wrap(t).RenderTo))
+	call("csv", "", "pkg.Render", func() (string, error) { return csv.Render(t) })
+	call("html", "", "Render", html.Wrap(t).Render)
+	call("html", "", "RenderTo", viaTo(html.Wrap(t).RenderTo))
+	call("json", "", "Render", tjson.Wrap(t).Render)
+	call("json", "", "RenderTo", viaTo(tjson.Wrap(t).RenderTo))
+	call("json", "", "pkg.Render", func() (string, error) { return tjson.Render(t) })
+	call("md", "", "Render", markdown.Wrap(t).Render)
+	call("md", "", "RenderTo", viaTo(markdown.Wrap(t).RenderTo))
+	call("md", "", "pkg.Render", func() (string, error) { return markdown.Render(t) })
+	for _, style := range append(auto.ListStyles(), "texttable", "no-such-style") {
+		st := style
+		call("auto", st, "auto.Render", func() (string, error) { return auto.Render(t, st) })
+	}
+	return out
+}
+
+var _ = tabular.New
 
 func (w *world) execRender2(op M) bool {
 	switch opStr(op, "op") {
+	case "renderall":
+		w.lastRes = M{"all": w.renderAll(opInt(op, "t"))}
+		return true
 	case "measure":
 		w.lastRes = M{"metrics": obsMetrics(op)}
 		return true
